@@ -17,6 +17,7 @@ def run(chk):
     cerlib.run_config(chk, "C02", PREFIXES)
     cerlib.run_config(chk, "C02hist", PREFIXES)
     cerlib.run_config(chk, "C02client" if chk.tier == "thorough" else "C02clientQ", PREFIXES)
+    cerlib.random_histories(chk, PREFIXES, quick_n=0)
     cerlib.finish_cov(chk, "one behaviour per (algorithm list, id length, counter flag, store) and per registration history; client: per (challenge class, client-data mode, origin/RP-ID class, algorithm list)",
                       False, "bounded histories, abstract cryptography; exhaustive within the bound")
 
